@@ -34,7 +34,7 @@ fn new_state_is_well_formed() {
     }
 }
 
-use super::mqttbytes::v5::{Filter, PingResp};
+use super::mqttbytes::v5::{Filter, PingResp, PublishProperties};
 
 /// C10: `handle_incoming_packet` / `handle_outgoing_packet` surface every received packet exactly once and in wire
 /// order, and announce exactly the packets they hand to the network — over every short history of requests and
@@ -44,8 +44,8 @@ use super::mqttbytes::v5::{Filter, PingResp};
 fn events_mirror_the_wire_exactly() {
     let name = "rumqttc::v5::MqttState::handle_incoming_packet#events_in_wire_order_one_outgoing_per_write";
     #[derive(Clone, Copy, Debug)]
-    enum A { OutPub(u8), OutSub, OutUnsub, OutPing, InPub(u8, u16), InAck(u16), InRec(u16), InRel(u16), InComp(u16), InSubAck, InPingResp, InConnAck }
-    let acts = [A::OutPub(0), A::OutPub(1), A::OutPub(2), A::OutSub, A::OutUnsub, A::OutPing, A::InPub(0, 0), A::InPub(1, 7), A::InPub(2, 9), A::InPub(2, 65535),
+    enum A { OutPub(u8), OutSub, OutUnsub, OutPing, InPub(u8, u16), InPubSetAlias(u8), InPubByAlias(u8), InAck(u16), InRec(u16), InRel(u16), InComp(u16), InSubAck, InPingResp, InConnAck }
+    let acts = [A::OutPub(0), A::OutPub(1), A::OutPub(2), A::OutSub, A::OutUnsub, A::OutPing, A::InPub(0, 0), A::InPub(1, 7), A::InPub(2, 9), A::InPub(2, 65535), A::InPubSetAlias(1), A::InPubByAlias(0), A::InPubByAlias(1),
                 A::InAck(1), A::InAck(2), A::InAck(9), A::InRec(1), A::InRec(2), A::InRel(9), A::InRel(3), A::InComp(1), A::InComp(2), A::InSubAck, A::InPingResp, A::InConnAck];
     fn kind_id(p: &Packet) -> (u8, u16) {
         match p {
@@ -70,14 +70,26 @@ fn events_mirror_the_wire_exactly() {
             cases += 1;
             let seq: Vec<A> = (0..depth).map(|k| acts[(code / n.pow(k as u32)) % n]).collect();
             let mut st = MqttState::new(2, manual);
+            let mut alias_known = false;
             for (k, a) in seq.iter().enumerate() {
                 let before: Vec<Event> = st.events.iter().cloned().collect();
+                let unknown_alias = matches!(a, A::InPubByAlias(_)) && !alias_known;
+                if matches!(a, A::InPubSetAlias(_)) { alias_known = true; }
                 let (incoming, res): (Option<Incoming>, Result<Option<Packet>, StateError>) = match a {
                     A::OutPub(q) => { let qos = match q { 0 => QoS::AtMostOnce, 1 => QoS::AtLeastOnce, _ => QoS::ExactlyOnce }; (None, st.handle_outgoing_packet(Request::Publish(Publish::new("t", qos, vec![k as u8], None)))) }
                     A::OutSub => (None, st.handle_outgoing_packet(Request::Subscribe(Subscribe::new(Filter::new("a/b", QoS::AtLeastOnce), None)))),
                     A::OutUnsub => (None, st.handle_outgoing_packet(Request::Unsubscribe(Unsubscribe::new("a/b", None)))),
                     A::OutPing => (None, st.handle_outgoing_packet(Request::PingReq)),
                     A::InPub(q, id) => { let qos = match q { 0 => QoS::AtMostOnce, 1 => QoS::AtLeastOnce, _ => QoS::ExactlyOnce }; let mut p = Publish::new("x", qos, vec![1u8], None); p.pkid = *id; let i = Incoming::Publish(p); (Some(i.clone()), st.handle_incoming_packet(i)) }
+                    // topic aliases: a publish that registers alias 3, and publishes that carry only the alias (empty topic)
+                    A::InPubSetAlias(q) | A::InPubByAlias(q) => {
+                        let qos = match q { 0 => QoS::AtMostOnce, 1 => QoS::AtLeastOnce, _ => QoS::ExactlyOnce };
+                        let topic = if matches!(a, A::InPubSetAlias(_)) { "x" } else { "" };
+                        let mut p = Publish::new(topic, qos, vec![1u8], Some(PublishProperties { topic_alias: Some(3), ..Default::default() }));
+                        p.pkid = 5;
+                        let i = Incoming::Publish(p);
+                        (Some(i.clone()), st.handle_incoming_packet(i))
+                    }
                     A::InAck(id) => { let i = Incoming::PubAck(PubAck::new(*id, None)); (Some(i.clone()), st.handle_incoming_packet(i)) }
                     A::InRec(id) => { let i = Incoming::PubRec(PubRec::new(*id, None)); (Some(i.clone()), st.handle_incoming_packet(i)) }
                     A::InRel(id) => { let i = Incoming::PubRel(PubRel::new(*id, None)); (Some(i.clone()), st.handle_incoming_packet(i)) }
@@ -118,7 +130,8 @@ fn events_mirror_the_wire_exactly() {
                 }
                 // replies to inbound QoS flows
                 if let (Some(Incoming::Publish(p)), Ok(out)) = (&incoming, &res) {
-                    let exp = if manual || p.qos == QoS::AtMostOnce { None } else if p.qos == QoS::AtLeastOnce { Some((2u8, p.pkid)) } else { Some((3u8, p.pkid)) };
+                    // an alias the broker never registered is a protocol error: the only thing written is the DISCONNECT
+                    let exp = if unknown_alias { Some((9u8, 0u16)) } else if manual || p.qos == QoS::AtMostOnce { None } else if p.qos == QoS::AtLeastOnce { Some((2u8, p.pkid)) } else { Some((3u8, p.pkid)) };
                     if out.as_ref().map(kind_id) != exp {
                         fail = Some(format!("input=[{}] detail=[inbound publish QoS {:?} id {} answered with {:?}, expected {:?}]", desc, p.qos, p.pkid, out.as_ref().map(kind_id), exp));
                         break 'outer;
